@@ -2,7 +2,7 @@
 //! Finite-domain enumeration: the complete product of format variants x small abstract
 //! states goes through the harness's independent spec ENCODER and then the real deserialize.
 
-use crate::common::{Ctx, catch, hex};
+use crate::common::{Ctx, Tier, catch, hex};
 use crate::hllm::{self, RefHll, coupon};
 use crate::spec_hll::{self, EncOpts, HllBody};
 use crate::spec_misc::{self, FiItems, MAX_THETA};
@@ -241,13 +241,13 @@ fn hll_array_case(ctx: &Ctx, lg_k: u8, tgt: u8, regs: &[u8], cur_min: u8, o: Enc
 }
 
 fn hll_all(ctx: &Ctx) -> u64 {
-    let lgs: Vec<u8> = ctx.tier.pick(vec![4, 5, 8, 10], vec![4, 5, 6, 7, 8, 10, 12]);
+    let lgs: Vec<u8> = ctx.tier.pick(vec![4, 5, 8, 10], vec![4, 5, 6, 7, 8, 9, 10, 11, 12, 13, 16, 21]);
     let jobs: Vec<(u8, u8)> = lgs.iter().flat_map(|&l| [4u8, 6, 8].into_iter().map(move |t| (l, t))).collect();
     jobs.par_iter()
         .map(|&(lg_k, tgt)| {
             let mut n = 0;
             let k = 1u32 << lg_k;
-            for extra in [0u8, 2, 32] {
+            for extra in if lg_k >= 16 { vec![0u8] } else { vec![0u8, 2, 32] } {
                 // coupon modes: every list length 0..=7, plain and slot-colliding coupons
                 let mut lists: Vec<Vec<u32>> = vec![];
                 for n in 0..=7u32 {
@@ -271,6 +271,15 @@ fn hll_all(ctx: &Ctx) -> u64 {
                         for cnt in [25u32, 31, 32, 33, 47, 48] {
                             sets.push(((0..cnt).map(|i| coupon(i * 37 + 3, 1 + (i % 6) as u8)).collect(), 6));
                             sets.push(((0..cnt).map(|i| coupon(3 + 64 * i, 2)).collect(), 6));
+                        }
+                    }
+                    if ctx.tier == Tier::Thorough {
+                        // larger set tables up to the promotion size lg_k - 3
+                        for lg_arr in 7..=(lg_k - 3).min(11) {
+                            let full = 3u32 << (lg_arr - 2);
+                            for cnt in [full / 2 + 1, full - 1, full] {
+                                sets.push(((0..cnt).map(|i| coupon((i * 37 + 3) & (k - 1) | ((i % 5) << 22), 1 + (i % 6) as u8)).collect::<BTreeSet<u32>>().into_iter().collect(), lg_arr));
+                            }
                         }
                     }
                     for (cs, lg_arr) in &sets {
@@ -464,7 +473,62 @@ fn theta_all(ctx: &Ctx) -> u64 {
             }
         }
     }
+    n += theta_v4_widths(ctx);
     n
+}
+
+/// Compressed (serial version 4) images for EVERY delta bit width 1..=63 and every entry
+/// count around the 8-entry packing blocks, for several placements of the widest delta and
+/// both fill patterns (other deltas minimal / other deltas as wide as fit below theta).
+fn theta_v4_widths(ctx: &Ctx) -> u64 {
+    let counts: Vec<usize> = ctx.tier.pick((1..=17).chain([24, 25, 255, 256, 257]).collect(), (1..=33).chain([63, 64, 65, 255, 256, 257, 65535, 65536, 65537]).collect());
+    let jobs: Vec<(u8, usize)> = (1..=63u8).flat_map(|b| counts.iter().map(move |&c| (b, c))).collect();
+    jobs.par_iter()
+        .map(|&(bits, cnt)| {
+            let mut n = 0;
+            let wide = if bits == 63 { (1u64 << 62) | 12345 } else { (1u64 << (bits - 1)) | (0x5555_5555_5555_5555u64 & ((1u64 << (bits - 1)) - 1)) };
+            for place in [0usize, cnt / 2, cnt - 1] {
+                for fill_wide in [false, true] {
+                    for &theta in &[MAX_THETA, MAX_THETA / 3] {
+                        // deltas: `wide` at `place`; others 1+i%3 (bits>=2) or as wide as the budget allows
+                        let mut deltas: Vec<u64> = (0..cnt).map(|i| if bits >= 2 { 1 + (i as u64 % 3).min((1u64 << bits) - 2) } else { 1 }).collect();
+                        deltas[place] = wide;
+                        if fill_wide {
+                            let budget = (theta - 1 - wide) / cnt as u64;
+                            let w2 = budget.min((1u64 << bits) - 1);
+                            if w2 >= 1 {
+                                for (i, d) in deltas.iter_mut().enumerate() {
+                                    if i != place {
+                                        *d = w2.max(1);
+                                    }
+                                }
+                            }
+                        }
+                        let mut entries = Vec::with_capacity(cnt);
+                        let mut acc = 0u64;
+                        let mut ok = true;
+                        for d in &deltas {
+                            match acc.checked_add(*d) {
+                                Some(x) if x < theta => {
+                                    acc = x;
+                                    entries.push(x);
+                                }
+                                _ => {
+                                    ok = false;
+                                    break;
+                                }
+                            }
+                        }
+                        if !ok {
+                            continue;
+                        }
+                        n += theta_case(ctx, 4, 9001, theta, &entries, true, false, false);
+                    }
+                }
+            }
+            n
+        })
+        .sum()
 }
 
 // ----------------------------------------------------------------------------------- Bloom / CM / FI
